@@ -26,6 +26,7 @@ def sh(cmd, env=None, timeout=1800):
 
 subprocess.run("git -C /repo worktree remove --force %s 2>/dev/null; git -C /repo worktree prune; git -C /repo worktree add -q --detach %s HEAD" % (WT, WT), shell=True, check=True)
 res = json.load(open(OUT)) if os.path.exists(OUT) else {}
+PRIOR = json.load(open(os.environ["VERIFY_PRIOR"])) if os.environ.get("VERIFY_PRIOR") else {}      # earlier results: tests / demonstration are not repeated
 try:
     for prop in sorted(os.listdir(ROOT)):
         pdir = os.path.join(ROOT, prop)
@@ -44,10 +45,15 @@ try:
                 r["apply_error"] = out[-300:]
                 res[key] = r
                 continue
-            rc, out = sh("cd %s && PYTHONPATH=%s/src /venv/bin/python -m pytest -q -p no:cacheprovider -x 2>&1 | tail -3" % (WT, WT))
-            r["tests"] = [l for l in out.splitlines() if "passed" in l or "failed" in l][-1:] or [out[-200:]]
-            r["tests_pass"] = any("144 passed" in l for l in r["tests"]) and not any("failed" in l for l in r["tests"])
-            if os.path.exists(demo):
+            pr = PRIOR.get(key, {})
+            known = pr.get("tests_pass") and pr.get("demo_with_patch_rc") not in (None, 0) and pr.get("demo_clean_rc") == 0
+            if known:
+                r.update({k_: pr[k_] for k_ in ("tests", "tests_pass", "demo_with_patch_rc", "demo_clean_rc")})
+            else:
+                rc, out = sh("cd %s && PYTHONPATH=%s/src /venv/bin/python -m pytest -q -p no:cacheprovider -x 2>&1 | tail -3" % (WT, WT))
+                r["tests"] = [l for l in out.splitlines() if "passed" in l or "failed" in l][-1:] or [out[-200:]]
+                r["tests_pass"] = any("144 passed" in l for l in r["tests"]) and not any("failed" in l for l in r["tests"])
+            if os.path.exists(demo) and not known:
                 rc, out = sh("cd %s && PYTHONPATH=%s/src /venv/bin/python %s" % (WT, WT, demo))
                 r["demo_with_patch_rc"] = rc
             checks = {}
@@ -57,7 +63,7 @@ try:
                 checks[chk] = {"rc": rc, "first": lines[:3], "result": [l for l in lines if l.startswith("RESULT")][-1:]}
             r["checks"] = checks
             sh("git -C %s checkout -q -- ." % WT)
-            if os.path.exists(demo):
+            if os.path.exists(demo) and not known:
                 rc, out = sh("cd %s && PYTHONPATH=%s/src /venv/bin/python %s" % (WT, WT, demo))
                 r["demo_clean_rc"] = rc
             res[key] = r
